@@ -2,6 +2,7 @@ package checks
 
 import (
 	"fmt"
+	"math"
 	"strings"
 
 	"verifharness/fw"
@@ -539,7 +540,66 @@ func c14Changed(u fw.Unit) fw.Result {
 			}
 		})
 	}
-	a.sample(map[string]any{"queries": []string{q1, q2, q3, q4}})
+	// a wrapper whose first call is NULL on some rows (lag on a partition's first rows) while a later call is
+	// cumulative: the cumulative call must consume every row, also those on which the wrapper's value is NULL
+	q5 := "SELECT k, (lag(v) - acc_avg(v)) OVER (PARTITION BY k) AS d1, (lag(v, 2) + acc_count(v)) OVER (PARTITION BY k) AS d2, (lag(v) * 0 + acc_sum(v) - acc_min(v)) OVER (PARTITION BY k) AS d3 FROM stream"
+	for L := 1; L <= 5; L++ {
+		sequences(L, 6, func(ix []int) {
+			idx++
+			if idx%sp.Shards != sp.Shard {
+				return
+			}
+			var rows []Row
+			for i, x := range ix {
+				rows = append(rows, Row{"k": []string{"a", "b"}[x/3], "id": i + 1, "v": []float64{1, 2, 4}[x%3]})
+			}
+			res, execErr, status, _ := syncEval(q5, rows)
+			a.r.Evaluations++
+			a.r.States++
+			a.r.Transitions += int64(len(rows))
+			a.r.Nontrivial++
+			cs := map[string]any{"sql": q5, "rows": rows}
+			if execErr != "" || status != sched.StatusOK {
+				a.fail("C14|changed|exec", execErr+" "+status.String(), cs, nil, nil)
+				return
+			}
+			hist := map[string][]float64{}
+			for i, row := range rows {
+				k := row["k"].(string)
+				h := append(hist[k], row["v"].(float64))
+				hist[k] = h
+				n := len(h)
+				sum, mn := 0.0, h[0]
+				for _, x := range h {
+					sum += x
+					if x < mn {
+						mn = x
+					}
+				}
+				var w1, w2, w3 any
+				if n >= 2 {
+					w1 = h[n-2] - sum/float64(n)
+					w3 = sum - mn
+				}
+				if n >= 3 {
+					w2 = h[n-3] + float64(n)
+				}
+				g := res[i].Row
+				same := func(got any, want any) bool {
+					if want == nil {
+						return got == nil
+					}
+					x, ok := num(got)
+					return ok && math.Abs(x-want.(float64)) < 1e-9
+				}
+				if g == nil || !same(g["d1"], w1) || !same(g["d2"], w2) || !same(g["d3"], w3) {
+					a.fail("C14|wrapper-null-first-call", fmt.Sprintf("%s: row %d gives %s, reference d1=%v d2=%v d3=%v; rows %s", q5, i+1, js(g), w1, w2, w3, js(rows)), cs, []any{w1, w2, w3}, g)
+					return
+				}
+			}
+		})
+	}
+	a.sample(map[string]any{"queries": []string{q1, q2, q3, q4, q5}})
 	return a.result()
 }
 
